@@ -83,6 +83,42 @@ def close_fault_scenarios(rng, n):
     return out
 
 
+def fixed_close_scenarios():
+    """always run: a plan that opens 1-2 runs itself, takes a point and dies with an exception whose args[0] is not a
+    string / that has no args (no other fault); a failing subscriber / clear_sub for every document kind with 2 runs"""
+    out = []
+    for exc in ("oserror", "keyerror-int", "noargs"):
+        for nr in (1, 2):
+            keys = KEYS[:nr]
+            body = [M("open_run", run=k) for k in keys] + [M("checkpoint")]
+            for k in keys:
+                body += _point(k)
+            body.append({"k": "raise", "tag": "boom", "exc": exc})
+            out.append(number({"record_interruptions": False, "devices": {"d1": {"kind": "det"}}, "script": {}, "decisions": [], "max_arrivals": 200,
+                               "plan": seq(*body), "ending": "raise-odd", "fault": {"kind": "none", "exc": exc}, "tag": "fault-probe:close"}))
+    for doc in ("start", "descriptor", "event", "stop"):
+        for victim in (0, 1):
+            for ending in ("close", "raise", "leave-open"):
+                body = [M("open_run", run="a"), M("monitor", "sa", run="a", name="sa_monitor"), M("open_run", run="b"), M("checkpoint")] + _point("a") + _point("b")
+                if ending == "close":
+                    body += [M("close_run", run="a"), M("close_run", run="b")]
+                elif ending == "raise":
+                    body.append({"k": "raise", "tag": "boom"})
+                out.append(number({"record_interruptions": False, "devices": {"d1": {"kind": "det"}, "sa": {"kind": "sig"}}, "script": {}, "decisions": [],
+                                   "max_arrivals": 200, "plan": seq(*body), "ending": ending, "cb_faults": [{"doc": doc, "run": f"run#{victim}", "nth": 0}],
+                                   "fault": {"kind": "cb-" + doc, "run": f"run#{victim}"}, "tag": "fault-probe:close"}))
+    for ending in ("close", "raise", "leave-open"):
+        body = [M("open_run", run="a"), M("monitor", "sa", run="a", name="sa_monitor"), M("monitor", "sb", run="a", name="sb_monitor"), M("open_run", run="b"), M("checkpoint")] + _point("a") + _point("b")
+        if ending == "close":
+            body += [M("close_run", run="a"), M("close_run", run="b")]
+        elif ending == "raise":
+            body.append({"k": "raise", "tag": "boom"})
+        out.append(number({"record_interruptions": False, "devices": {"d1": {"kind": "det"}, "sa": {"kind": "sig", "modes": {"clear_sub": ["raise"]}}, "sb": {"kind": "sig"}},
+                           "script": {}, "decisions": [], "max_arrivals": 200, "plan": seq(*body), "ending": ending,
+                           "fault": {"kind": "clear_sub", "run_key": "a"}, "tag": "fault-probe:close"}))
+    return out
+
+
 def teardown_request_scenarios(rng, n):
     """a request (pause / abort / stop / halt / suspend) issued from inside Motor.stop() while the engine stops the
     motors at the END of a call (after the plan finished, raised, or was terminated)"""
@@ -132,6 +168,23 @@ def leftover_stage_scenarios(rng, n):
         sc = {"record_interruptions": False, "devices": devs, "plan": seq(*body), "script": {}, "decisions": decisions, "max_arrivals": 200,
               "tag": "fault-probe:leftover-stage", "fault": {"kind": "leftover-stage", "raising": sorted(k for k, v in devs.items() if v.get("modes"))},
               "ending": ending, "staged": names}
+        out.append(number(sc))
+    return out
+
+
+def pause_hook_scenarios(rng, n):
+    """a Pausable device whose pause() is a coroutine that really takes time (bounded real time): the blocking call
+    (RE(...) / resume()) must not hand control back before the hooks have run and the state is 'paused'"""
+    out = []
+    for i in range(n):
+        body = [M("open_run"), M("checkpoint"), M("set", "m1", 1 + i % 3, group="g"), M("wait", None, group="g")]
+        body += [M("null")] * rng.randrange(0, 3) + [M("pause", None, defer=False), M("null")]
+        if rng.random() < 0.5:
+            body += [M("checkpoint"), M("pause", None, defer=False), M("null")]
+        body.append(M("close_run"))
+        sc = {"record_interruptions": rng.random() < 0.5, "devices": {"m1": {"kind": "motor", "pausable": "async-slow"}}, "plan": seq(*body),
+              "script": {}, "decisions": [rng.choice(["resume", "resume", "abort", "stop", "halt"]) for _ in range(3)], "max_arrivals": 200,
+              "tag": "fault-probe:pause-hook", "fault": {"kind": "slow-async-pause-hook"}, "ending": "close"}
         out.append(number(sc))
     return out
 
@@ -224,7 +277,7 @@ def callback_exception_policy(sc, o):
     return bad
 
 
-FAMILIES = {"close": close_fault_scenarios, "teardown-request": teardown_request_scenarios, "leftover-stage": leftover_stage_scenarios}
+FAMILIES = {"pause-hook": pause_hook_scenarios, "close": close_fault_scenarios, "teardown-request": teardown_request_scenarios, "leftover-stage": leftover_stage_scenarios}
 
 
 def run_probes(ctx, res, judges, families, quick, thorough):
@@ -234,7 +287,7 @@ def run_probes(ctx, res, judges, families, quick, thorough):
     n = ctx.budget(quick, thorough)
     total = 0
     for fam in families:
-        for sc in FAMILIES[fam](ctx.rng, n):
+        for sc in (fixed_close_scenarios() if fam == "close" else []) + FAMILIES[fam](ctx.rng, n):
             o = EI.run_scenario(sc)
             total += 1
             res.seen(sc, True)
